@@ -28,8 +28,12 @@
 (***************************************************************************)
 EXTENDS Integers, Sequences, FiniteSets, TLC
 
-CONSTANTS OpA, OpB, OpC,       \* "PUT" | "GETD" | "GETC" | "DELC" | "PAUSE" | "UNPAUSE" | "TEXIT" | "TDELETE" | "NONE"
+CONSTANTS OpA, OpB, OpC,       \* "PUT" | "GETD" | "GETC" | "DELC" | "PAUSE" | "UNPAUSE" | "TEXIT" | "TDELETE" | "START" | "NONE"
           Situation,           \* "idle" | "held" | "paused" | "nochan" | "backlog" (m1 already sits in c's queue)
+                               \* | "unstarted" (the topic is in NSQD's map, holds m1, has no channel, and Start() has not
+                               \*   been called: NSQD.GetTopic asking the nsqlookupds, LoadMetadata creating the channels)
+          StartGate,           \* before Start() the pump only takes note of handshakes, it does not look at the channel
+                               \* list or open the queues (as coded); FALSE = a handshake before Start() opens them
           Handshake,           \* GetChannel's creator waits until the pump has taken the new channel list (as coded)
           RefreshHonoursPause, \* a channel-list refresh keeps a paused topic's queue unselected (as coded)
           JoinShakes           \* a GetChannel that finds the channel in the map does the handshake too (its creator may
@@ -40,7 +44,7 @@ VARIABLES cmap,     \* channelMap: set of channel names
           tq,       \* messages in the topic's queue
           cache,    \* the pump's channel list
           psel,     \* the pump selects on the topic's queue (list not empty and not paused when it last looked)
-          ppc,      \* "sel" | "copy" | "exited"
+          ppc,      \* "pre" (waiting for Start) | "sel" | "copy" | "exited"
           pmsg,     \* the message the pump holds
           prem,     \* channels it still has to copy it to
           tpaused,  \* Topic.paused
@@ -68,7 +72,7 @@ Actors == {"A", "B", "C"}
 Op(a) == CASE a = "A" -> OpA [] a = "B" -> OpB [] a = "C" -> OpC
 Chans == {"c", "d"}
 Segs(op) == CASE op = "PUT" -> 2 [] op = "GETD" -> 2 [] op = "GETC" -> 2 [] op = "DELC" -> 6 [] op = "PAUSE" -> 1 [] op = "UNPAUSE" -> 1
-              [] op = "TEXIT" -> 3 [] op = "TDELETE" -> 3 [] OTHER -> 0
+              [] op = "TEXIT" -> 3 [] op = "TDELETE" -> 3 [] op = "START" -> 1 [] OTHER -> 0
 Alive(x) == cst[x] \in {"new", "live"}
 IsGet(op) == op \in {"GETD", "GETC"}
 XOf(op) == IF op = "GETC" THEN "c" ELSE "d"
@@ -77,13 +81,13 @@ XOf(op) == IF op = "GETC" THEN "c" ELSE "d"
 DelInside == \E b \in Actors : Op(b) = "DELC" /\ pc[b] \in 2..5
 
 Init ==
-  /\ cmap = IF Situation = "nochan" THEN {} ELSE {"c"}
-  /\ cst = [x \in Chans |-> IF x = "c" /\ Situation # "nochan" THEN "live" ELSE "none"]
+  /\ cmap = IF Situation \in {"nochan", "unstarted"} THEN {} ELSE {"c"}
+  /\ cst = [x \in Chans |-> IF x = "c" /\ Situation \notin {"nochan", "unstarted"} THEN "live" ELSE "none"]
   /\ cq = [x \in Chans |-> IF x = "c" /\ Situation = "backlog" THEN {"m1"} ELSE {}]
-  /\ tq = IF Situation \in {"paused", "nochan"} THEN {"m1"} ELSE {}
+  /\ tq = IF Situation \in {"paused", "nochan", "unstarted"} THEN {"m1"} ELSE {}
   /\ cache = cmap
   /\ psel = (Situation \in {"idle", "held", "backlog"})
-  /\ ppc = IF Situation = "held" THEN "copy" ELSE "sel"
+  /\ ppc = IF Situation = "held" THEN "copy" ELSE IF Situation = "unstarted" /\ StartGate THEN "pre" ELSE "sel"
   /\ pmsg = IF Situation = "held" THEN "m1" ELSE ""
   /\ prem = IF Situation = "held" THEN {"c"} ELSE {}
   /\ tpaused = (Situation = "paused") /\ pauseAck = (Situation = "paused")
@@ -107,9 +111,9 @@ Adv(a)  == pc' = [pc EXCEPT ![a] = @ + 1]
 \* pause / delete handlers end by persisting the metadata under it.
 ExitInside == \E b \in Actors : Op(b) = "TEXIT" /\ pc[b] \in {2, 3}
 NFree == ~(npend /\ rl # {}) /\ ~ExitInside
-AtSelect == ppc = "sel" \/ ppc = "exited"        \* a handshake goes through: the pump receives, or exitChan is closed
+AtSelect == ppc \in {"sel", "exited", "pre"}    \* a handshake goes through: the pump receives, or exitChan is closed
 Refresh(newmap, paused) ==                       \* case <-t.channelUpdateChan
-  IF ppc = "exited" THEN UNCHANGED <<cache, psel>>
+  IF ppc \in {"exited", "pre"} THEN UNCHANGED <<cache, psel>>                  \* before Start(): `continue`
   ELSE /\ cache' = newmap
        /\ psel' = (newmap # {} /\ (RefreshHonoursPause => ~paused))
 
@@ -168,7 +172,19 @@ DelC(a) ==
 Pause(a, p) ==
   /\ pc[a] = 1 /\ AtSelect /\ rl = {} /\ NFree    \* store; t.pauseChan <- 1; the handler persists the metadata
   /\ tpaused' = p /\ pauseAck' = p
-  /\ psel' = IF ppc = "exited" THEN psel ELSE (cache # {} /\ ~p)
+  /\ psel' = IF ppc \in {"exited", "pre"} THEN psel ELSE (cache # {} /\ ~p)
+  /\ Done(a)
+
+\* ---- Topic.Start (NSQD.GetTopic once the channels the nsqlookupds know exist; LoadMetadata at its end) --------------
+\* The pump leaves its waiting loop, reads the channel map and opens the queues.  Whatever the topic accepted before is owed
+\* to every channel there is at that moment (C16: "those channels receive its very first message").
+Start(a) ==
+  /\ pc[a] = 1 /\ AtSelect
+  /\ IF ppc \in {"pre", "sel"}
+     THEN /\ ppc' = "sel" /\ cache' = cmap /\ psel' = (cmap # {} /\ ~tpaused)
+          /\ cst' = [x \in Chans |-> IF cst[x] = "new" THEN "live" ELSE cst[x]]
+     ELSE UNCHANGED <<ppc, cache, psel, cst>>
+  /\ owed' = [m \in DOMAIN owed |-> IF m \in acked THEN owed[m] \cup {<<x, cgen[x]>> : x \in {y \in cmap : Alive(y)}} ELSE owed[m]]
   /\ Done(a)
 
 \* ---- nsqd.Exit -> Topic.Close ----------------------------------------------
@@ -177,7 +193,7 @@ TExit(a) ==
      /\ IF flag THEN UNCHANGED <<flag, ackedAtExit, knownAtExit>> /\ Done(a)
         ELSE flag' = TRUE /\ ackedAtExit' = acked /\ knownAtExit' = known /\ Adv(a)
      /\ UNCHANGED <<exch, ppc, closed, cdisk, tdisk>>
-  \/ /\ pc[a] = 2 /\ ppc = "sel"                  \* close(exitChan); waitGroup.Wait()
+  \/ /\ pc[a] = 2 /\ ppc \in {"sel", "pre"}         \* close(exitChan); waitGroup.Wait()
      /\ exch' = TRUE /\ ppc' = "exited" /\ Adv(a)
      /\ UNCHANGED <<flag, ackedAtExit, knownAtExit, closed, cdisk, tdisk>>
   \/ /\ pc[a] = 3 /\ ~DelInside                   \* channels Close (flush to their backends); t.flush(); backend.Close()
@@ -190,7 +206,7 @@ TDelete(a) ==
   \/ /\ pc[a] = 1 /\ NFree
      /\ IF flag THEN flag' = flag /\ Done(a) ELSE flag' = TRUE /\ Adv(a)
      /\ UNCHANGED <<exch, ppc, cmap, cst, cq, tq, tgone>>
-  \/ /\ pc[a] = 2 /\ ppc = "sel"
+  \/ /\ pc[a] = 2 /\ ppc \in {"sel", "pre"}
      /\ exch' = TRUE /\ ppc' = "exited" /\ Adv(a)
      /\ UNCHANGED <<flag, cmap, cst, cq, tq, tgone>>
   \/ /\ pc[a] = 3 /\ rl = {} /\ NFree /\ ~DelInside \* t.Lock(); every channel deleted; t.Unlock(); t.Empty(); backend.Delete(); unlink; persist
@@ -239,6 +255,9 @@ Step(a) ==
             Pause(a, Op(a) = "PAUSE")
             /\ UNCHANGED <<cmap, cst, cq, tq, cache, ppc, flag, exch, closed, tgone, rl, creator, cgen, acked, failed, owed,
                            known, mcount, late, cdisk, tdisk, ackedAtExit, knownAtExit>>
+       [] Op(a) = "START" ->
+            Start(a) /\ UNCHANGED <<cmap, cq, tq, tpaused, flag, exch, closed, tgone, rl, creator, cgen, acked, failed, known,
+                                    mcount, late, pauseAck, cdisk, tdisk, ackedAtExit, knownAtExit>>
        [] Op(a) = "TEXIT" ->
             TExit(a) /\ UNCHANGED <<cmap, cst, cq, tq, cache, psel, tpaused, tgone, rl, creator, cgen, acked, failed, owed,
                                     known, mcount, late, pauseAck>>
